@@ -73,10 +73,11 @@ STUBS = {
 }
 
 
-def _model(direction="max"):
+def _model(direction="max", solves: int = 4):
     # R_b and R_c are wider than the library's default bounds (+-1000): nothing may be clipped to the defaults
     rxns = [RxnLP("R_a", -11.0, 17.0), RxnLP("R_b", 0.0, 2300.0), RxnLP("R_c", -2900.0, 0.0), RxnLP("R_d", -5.0, 5.0)]
-    return ModelLP(rxns, {"R_b": 1.0, "R_a": 0.25}, direction)
+    values = (7.25, 13.5, 21.125, 33.0625, 41.5, 57.25, 63.125, 71.0625, 83.5, 97.25)[:solves]
+    return ModelLP(rxns, {"R_b": 1.0, "R_a": 0.25}, direction, solve_values=values)
 
 
 def _interp(ctx) -> Interp:
@@ -273,6 +274,28 @@ def _check_reference(model, ref, sol, what, problems):
     return model.fluxes_of(2), None
 
 
+def _second_use(ctx, entry, kwargs: Dict[str, Any], what: str, problems: Dict[str, str]) -> None:
+    """The same model object used twice with the default reference, in two knock-out states: the reference of the
+    second call has to be a pFBA solution computed in that call on the model as it is then (a reference remembered
+    from the first call belongs to another model)."""
+    model = _model("max", solves=10)
+    it = _interp(ctx)
+    try:
+        it.call(entry, [model], dict(kwargs))
+        n0 = len(model.solves)
+        victim = next(r for r in model.reactions if r.id not in ("R_a", "R_b"))
+        victim.lower_bound, victim.upper_bound = 0.0, 0.0
+        it.call(entry, [model], dict(kwargs))
+    except EvalRaise as exc:
+        problems.setdefault("raise", f"{what} (second use of the same model after a knock-out) raises {exc.exc_type}")
+        return
+    second = model.solves[n0:]
+    ok = len(second) >= 3 and not second[0][0].constraints and second[0][0].objective_name == "original_objective" and second[1][0].objective_name == "_pfba_objective" \
+        and all(f.bounds[victim.id] == (0.0, 0.0) for f, *_ in second[:2])
+    if not ok:
+        problems.setdefault("reference", f"{what}: on a second use of the same model object after {victim.id} was knocked out, no pFBA reference is computed for the model as it is now ({len(second)} solve(s) in the second call): the distances are measured from the fluxes of a model that no longer exists")
+
+
 def check_moma(ctx) -> None:
     prog = ctx.prog
     entry = prog.func("cobra.flux_analysis.moma", "moma")
@@ -336,6 +359,7 @@ def check_moma(ctx) -> None:
         for r in model.reactions:
             if f.bounds[r.id] != (r.lower_bound, r.upper_bound):
                 problems.setdefault("extra", f"{what}: the bounds of {r.id} are changed")
+    _run("moma twice", lambda: _second_use(ctx, entry, {"linear": True}, "moma(linear=True, solution=None)", problems))
     for clause, text in (("distance", "d_i >= |v_i - w_i| for every reaction, w_i looked up by reaction id"), ("objective", "minimise the sum of the distance variables"),
                          ("extra", "nothing else restricts the fluxes (the old-objective variable is free)"), ("reference", "reference = given solution, or one pFBA of the untouched model"),
                          ("solution", "the Solution is that of the last solve"), ("raise", "no scenario raises")):
@@ -427,6 +451,7 @@ def check_room(ctx) -> None:
             for r in model.reactions:
                 if f.bounds[r.id] != (r.lower_bound, r.upper_bound):
                     problems.setdefault("extra", f"{what}: the bounds of {r.id} are changed")
+    _run("room twice", lambda: _second_use(ctx, entry, {"linear": True}, "room(linear=True, solution=None)", problems))
     for clause, text in (("band", "documented pair of band constraints with w_u, w_l per reaction, y binary (linear: 0..1, delta = epsilon = 0)"), ("objective", "minimise the sum of the switch variables"),
                          ("extra", "nothing else restricts the fluxes (the old-objective variable is free)"), ("reference", "reference = given solution, or one pFBA of the untouched model"),
                          ("solution", "the Solution is that of the last solve"), ("raise", "no scenario raises")):
